@@ -287,6 +287,10 @@ impl<T: ?Sized> RwLock<T> {
                 _ => (),
             };
             drop(state);
+            if !acquired {
+                // A failed attempt must leave the lock unchanged: give the permits back.
+                self.semaphore.release(typ.num_permits());
+            }
         }
 
         trace!(
